@@ -26,9 +26,12 @@ DAMAGE = {"truncated": lambda s: s[:max(1, len(s) // 2)], "empty": lambda s: "",
           "not-json": lambda s: "\x00\x01garbage", "missing-key": lambda s: '{"data": {"instance_id": "x"}}'}
 
 
+_START = [START]
+
+
 def factory():
     import BPTK_Py
-    m = scen.base_model(START, 6.0, DT, name="c20")
+    m = scen.base_model(_START[0], _START[0] + 6.0, DT, name="c20")
     b = BPTK_Py.bptk()
     b.register_scenario_manager({"sm": {"model": m}})
     b.register_scenarios(scenario_manager="sm", scenarios={"A": {}})
@@ -58,8 +61,9 @@ def step_request(c, inst, i, kind, mode, env):
     return c.post("/%s/run-step" % inst, data=json.dumps({"settings": {"sm": {"A": {"constants": {const: v}}}}}), content_type="application/json")
 
 
-def run_case(hist, k, mode, env=None, two_instances=False):
+def run_case(hist, k, mode, env=None, two_instances=False, start=START):
     """-> (responses after the restart, responses of the uninterrupted run for the same steps)"""
+    _START[0] = start
     from BPTK_Py.server import BptkServer
     from BPTK_Py.externalstateadapter import FileAdapter
     d = tempfile.mkdtemp(prefix="c20-", dir=os.environ.get("VCHECK_SCRATCH"))
@@ -132,10 +136,10 @@ def compare(after, ref, pc, timeout_s, numeric=False):
     return None
 
 
-def check_case(hist, k, timeout_s):
+def check_case(hist, k, timeout_s, start=START):
     def run():
         try:
-            return ("ok",) + run_case(hist, k, "sym")
+            return ("ok",) + run_case(hist, k, "sym", start=start)
         except Exception as e:
             import traceback
             return ("exc", e, traceback.format_exc()[-600:])
@@ -213,7 +217,7 @@ def replay(case):
         return (r is not None), r or "server starts and serves the intact instance"
     hist, k = case["hist"], case["k"]
     try:
-        after, ref = run_case(hist, k, "float", case.get("env", {}))
+        after, ref = run_case(hist, k, "float", case.get("env", {}), start=case.get("start", START))
     except Exception as e:
         return True, "history %s crash after %d steps: raised %r" % (hist, k, e)
     r = compare(after, ref, (), 0, numeric=True)
@@ -243,7 +247,7 @@ _G = {}
 
 
 def _task(t):
-    return check_case(t[0], t[1], _G["timeout"])
+    return check_case(t[0], t[1], _G["timeout"], start=t[2])
 
 
 def run(tier):
@@ -259,7 +263,9 @@ def run(tier):
     stubs = harness.Stubs()
     harness.install_sd_stubs(stubs)
     scen.install_json_hooks(stubs)
-    tasks = [(h, k) for h in histories(tier) for k in range(0, len(h) + 1)]
+    tasks = [(h, k, START) for h in histories(tier) for k in range(0, len(h) + 1)]
+    # step times crossing a digit boundary (8, 9, 10, 11): string-keyed logs of a restored state sort differently
+    tasks += [(h, k, 8.0) for h in histories(tier) if len(h) >= 3 for k in range(1, len(h) + 1)]
     counts = {"holds": 0, "violated": 0, "unknown": 0}
     samples, bad = [], []
     try:
@@ -272,13 +278,13 @@ def run(tier):
             elif st == "unknown":
                 rep.inconcl("%s: %s" % (t, info))
             if len(samples) < 8 and (len(samples) < 3 or st != "holds"):
-                samples.append({"history": t[0], "crash_after_step": t[1], "verdict": st,
+                samples.append({"history": t[0], "crash_after_step": t[1], "start": t[2], "verdict": st,
                                 "info": str(info.get("_what") if isinstance(info, dict) else "")[:200]})
         rep.canary("restore-resets-the-clock", canary_restore_loses_clock())
     finally:
         stubs.restore()
     seen = set()
-    for (hist, k), info in sorted(bad, key=lambda x: (len(x[0][0]), x[0][1])):
+    for (hist, k, st0), info in sorted(bad, key=lambda x: (len(x[0][0]), x[0][1])):
         what = info.get("_what", "")
         if "missing" in what:
             sig = "restart:equation-missing"
@@ -294,7 +300,7 @@ def run(tier):
             continue
         seen.add(sig)
         env = {k_: float(v) for k_, v in info.items() if isinstance(v, (Fraction, int, float)) and not isinstance(v, bool)}
-        rep.candidate(sig, {"hist": hist, "k": k, "env": env}, "history %s, crash after %d steps: %s" % (hist, k, what))
+        rep.candidate(sig, {"hist": hist, "k": k, "env": env, "start": st0}, "history %s from t=%s, crash after %d steps: %s" % (hist, st0, k, what))
     dmg = 0
     for kind in DAMAGE:
         dmg += 1
